@@ -36,6 +36,27 @@ Section C13s.
     /\ (forall q, In q (filter (fun q => leb N t (inten q)) (peaks p)) <-> In q (peaks p) /\ leb N t (inten q) = true).
   Proof. exact (ignore_below_src N). Qed.
 
+  (* frame laws *)
+  Theorem C13s_shift_frame : forall (p : tip) off,
+    ints (shift_gen N p off) = ints p /\ length (peaks (shift_gen N p off)) = length (peaks p).
+  Proof. exact (frame_shift_src N). Qed.
+  Theorem C13s_normalize_frame : forall (p : tip),
+    map mz (peaks (normalize_gen N p)) = map mz (peaks p) /\ length (peaks (normalize_gen N p)) = length (peaks p)
+    /\ origin (normalize_gen N p) = origin p.
+  Proof. exact (frame_normalize_src N). Qed.
+  Theorem C13s_ignore_below_frame : forall (p : tip) t,
+    map mz (peaks (ignore_below_gen N p t)) = map mz (filter (fun q => geb N (inten q) t) (peaks p))
+    /\ length (peaks (ignore_below_gen N p t)) <= length (peaks p)
+    /\ origin (ignore_below_gen N p t) = origin p.
+  Proof. exact (frame_ignore_below_src N). Qed.
+  Theorem C13s_truncate_after_frame : forall (p : tip) t,
+    exists k, map mz (peaks (truncate_after_gen N p t)) = firstn (S k) (map mz (peaks p))
+              /\ k <= Nat.pred (length (peaks p))
+              /\ length (peaks (truncate_after_gen N p t)) <= length (peaks p)
+              /\ (peaks p <> [] -> peaks (truncate_after_gen N p t) <> [])
+              /\ origin (truncate_after_gen N p t) = origin p.
+  Proof. exact (frame_truncate_after_src N). Qed.
+
   (* exact arithmetic *)
   Theorem C13s_normalize_sum : OField N -> forall (p : tip),
     total_gen N p <> zero N -> total_gen N (normalize_gen N p) = one N.
@@ -59,3 +80,4 @@ End C13s.
 Print Assumptions C13s_shift. Print Assumptions C13s_scale_by. Print Assumptions C13s_normalize_shape.
 Print Assumptions C13s_truncate_after. Print Assumptions C13s_ignore_below. Print Assumptions C13s_normalize_sum.
 Print Assumptions C13s_normalize_ratio. Print Assumptions C13s_truncate_sum. Print Assumptions C13s_ignore_sum.
+Print Assumptions C13s_shift_frame. Print Assumptions C13s_normalize_frame. Print Assumptions C13s_ignore_below_frame. Print Assumptions C13s_truncate_after_frame.
